@@ -498,6 +498,9 @@ func H_close_vs_op() {
 	if op == 0 && e != nil && errors.Is(e, ErrClosed) {
 		verifReach("close-vs-op-add-lost-race")
 	}
+	// the call either took effect before Close or found the Watcher closed; it never
+	// works on the descriptor after Close has released it
+	verifAssert(e == nil || !errors.Is(e, unix.EBADF), "a call racing Close must not reach the kernel with the released descriptor (EBADF): it is ordered before Close or fails as closed")
 	// everything still returns afterwards
 	verifAssert(w.Close() == nil, "a further Close returns")
 	verifAssert(w.Remove(p) == nil, "Remove after Close returns nil")
